@@ -51,13 +51,16 @@ def damage(items, flows, rng):
         items[i] = reframe(it, flows[it.conn].ep, mod)
 
 
-def make_scene(rng, damaged=False, other_port=None):
+def make_scene(rng, damaged=False, other_port=None, tls13=False):
     """other_port: one more keyed TLS connection, to a server port that is neither a default nor (in the judged run) a selected one"""
     n = rng.choice([1, 2, 3, 4])
     eps = gen.distinct_eps(rng, n, rng.choice(["random", "same-client-host", "same-client-port"]))
     flows = []
     if other_port:
         flows.append(gen.random_tls_flow(random.Random(rng.random()), 9, ep=tcpcap.random_ep(random.Random(rng.random()), sport=other_port), nmax=4, min_records=1))
+    if tls13:
+        r2 = random.Random(rng.random())
+        flows.append(gen.random_tls_flow(r2, 8, version=0x0304, code=r2.choice([0x1301, 0x1302, 0x1303, 0x1304]), nmax=4, min_records=1))
     for i, ep in enumerate(eps):
         if rng.random() < 0.6 and not (damaged and i == 0):
             s = quicsynth.random_qspec(rng, napp=rng.choice([4, 8]))
@@ -183,12 +186,16 @@ def eval_inproc(case, rng):
     # a quarter of the pairs: the earlier command selects a server port (and maps it) that the later one does not, and the later capture holds a keyed TLS connection to it
     port = rng.choice([8443, 4433, 9443, 1234]) if case["i"] % 4 == 0 else None
     fa, capa, keysa = make_scene(rng)
-    fb, capb, keysb = make_scene(rng, other_port=port)
+    fb, capb, keysb = make_scene(rng, other_port=port, tls13=case["i"] % 5 == 2)
     files = {"a.pcapng": capa, "a.log": keysa, "b.pcapng": capb, "b.log": keysb}
     ea = rng.choice([[], ["-a"], ["-m"], ["-p", "8443"]])
     eb = rng.choice([[], ["-a"], ["-m"]])
     if case["i"] % 5 == 2:
         ea = ea + rng.choice([["-d"], ["-d", "INFO"], ["-d", "DEBUG"]])       # the earlier command asked for logging; the later one does not (the level is process-wide state too)
+        # ... and the later command's key log is incomplete (handshake secrets missing, or every third line): the paths that only log take part in its run
+        kl = keysb.decode().split("\n")
+        keysb = "\n".join([l for l in kl if "HANDSHAKE_TRAFFIC_SECRET" not in l] if rng.random() < 0.6 else [l for j, l in enumerate(kl) if j % 3]).encode() + b"\n"
+        files["b.log"] = keysb
     if port:
         ea = rng.choice([["-p", str(port)], ["-p", str(port), "-m", f"{port}:9999"], ["-m", f"443:{port}", "-p", str(port), "8081"]])
     argv_a = ["-i", "{dir}/a.pcapng", "-o", "{dir}/outa.pcapng", "-s", "{dir}/a.log"] + ea
